@@ -56,14 +56,23 @@ def gen_case(rng, maxlen=6, fn=None):
         sb = list(sa)
         if sb and rng.random() < 0.5:
             sb[rng.randrange(len(sb))] = rng.choice(alpha)
-    fn = fn if fn is not None else rng.choice([0, 0, 0, 1, 1, 2, 3])
+    fn = fn if fn is not None else rng.choice([0, 0, 0, 1, 1, 2, 3, 4, 4])
     mode = rng.choice(MODES)
     proset = rng.choice(["AX", "AXT", "ABCLMNXYZT_", "AXT_", "CV"])
     pa = [rng.choice(proset) for _ in sa]
     pb = [rng.choice(proset) for _ in sb]
-    rch = rng.choice(["T_", "T_", "T", ""]) if fn in (0, 1) else ""
+    rch = rng.choice(["T_", "T_", "T", ""]) if fn in (0, 1, 4) else ""
     sec = rng.random() < 0.5
+    batch = []
+    if fn == 4:      # companions in the same align_pairs call: other pairs, with / without restricted characters
+        for _ in range(rng.randint(1, 2)):
+            oa = [rng.choice(alpha) for _ in range(rng.randint(1, 4))]
+            ob = [rng.choice(alpha) for _ in range(rng.randint(1, 4))]
+            ps = rng.choice(["AX", "AXT_", "T_"])
+            batch.append({"seqA": oa, "seqB": ob, "proA": [rng.choice(ps) for _ in oa], "proB": [rng.choice(ps) for _ in ob],
+                          "wA": [rng.choice(WEIGHTS) for _ in oa], "wB": [rng.choice(WEIGHTS) for _ in ob]})
     return {
+        "batch": batch, "batch_pos": rng.randint(0, len(batch)),
         "fn": fn, "mode": mode, "sec": sec,
         "seqA": sa, "seqB": sb, "proA": pa, "proB": pb,
         "wA": [rng.choice(WEIGHTS) for _ in sa], "wB": [rng.choice(WEIGHTS) for _ in sb],
@@ -90,7 +99,7 @@ def exhaustive_cases(maxlen=3, alpha="ab"):
                         pats = ["A", "AX", "XT", "TA", "AXT", "T_A"]
                         pa = [pats[k % len(pats)][i % len(pats[k % len(pats)])] for i in range(len(sa))]
                         pb = [pats[(k // 7) % len(pats)][i % len(pats[(k // 7) % len(pats)])] for i in range(len(sb))]
-                        yield {"fn": 0, "mode": mode, "sec": sec, "seqA": sa, "seqB": sb, "proA": pa, "proB": pb,
+                        yield {"batch": [], "batch_pos": 0, "fn": 0, "mode": mode, "sec": sec, "seqA": sa, "seqB": sb, "proA": pa, "proB": pb,
                                "wA": [F(1)] * len(sa), "wB": [[F(1), F(1, 2)][(k + i) % 2] for i in range(len(sb))],
                                "gop": gop, "scale": scale, "factor": factor,
                                "scorer": sc1 if k % 3 else sc2, "r": "T_", "alpha": alpha}
@@ -136,6 +145,22 @@ def run_impl(case):
         out = calign.align_pair(sa, sb, [float(w) for w in case["wA"]], [float(w) for w in case["wB"]], pa, pb,
                                 float(case["gop"]), scale, factor, scorer, mode, case["r"], 2 if denom else 0)
         res["dist"] = F(out[3]) if denom else None
+    elif case["fn"] == 4:
+        denom = sum((1 + case["factor"]) * case["scorer"][x, x] for x in sa + sb)
+        for o in case["batch"]:
+            if sum((1 + case["factor"]) * case["scorer"][x, x] for x in o["seqA"] + o["seqB"]) == 0:
+                denom = 0
+        me = {"seqA": sa, "seqB": sb, "proA": case["proA"], "proB": case["proB"], "wA": case["wA"], "wB": case["wB"]}
+        pairs = list(case["batch"])
+        pos = case["batch_pos"]
+        pairs.insert(pos, me)
+        outs = calign.align_pairs(
+            [(list(q["seqA"]), list(q["seqB"])) for q in pairs],
+            [([float(w) for w in q["wA"]], [float(w) for w in q["wB"]]) for q in pairs],
+            [("".join(q["proA"]), "".join(q["proB"])) for q in pairs],
+            float(case["gop"]), scale, factor, scorer, mode, case["r"], 2 if denom else 0)
+        out = outs[pos]
+        res["dist"] = F(out[3]) if denom else None
     elif case["fn"] == 2:
         f = getattr(talign, TFN[mode])
         if mode == "dialign":
@@ -164,6 +189,8 @@ def result_lit(o):
 
 def cin_lit(case):
     fn = case["fn"]
+    if fn == 4:
+        fn = 1
     if fn == 0:
         gA = [case["gop"] * w for w in case["wA"]]
         gB = [case["gop"] * w for w in case["wB"]]
@@ -179,7 +206,7 @@ def cin_lit(case):
 
 def render(case, res):
     return L.record("align_case", [
-        cin_lit(case), L.nat(case["fn"]), COQ_MODE[case["mode"]], L.b(case["sec"]), L.q(case["gop"]),
+        cin_lit(case), L.nat(1 if case["fn"] == 4 else case["fn"]), COQ_MODE[case["mode"]], L.b(case["sec"]), L.q(case["gop"]),
         result_lit(res["out"]), L.opt(res.get("dist"), L.q)])
 
 
@@ -198,6 +225,7 @@ def classify(case, res):
     o = res["out"]
     gaps = sum(1 for x in o["almA"] + o["almB"] if x is None)
     return ["fn=%d" % case["fn"], "mode=" + case["mode"], "sec=%s" % (case["sec"] if case["fn"] == 0 else "-"),
+            "batch=%d" % len(case.get("batch", [])),
             "gaps>0" if gaps else "gaps=0",
             "restricted_present" if set(case["r"]) & set(case["proA"] + case["proB"]) else "restricted_absent",
             "lenA=%d" % len(case["seqA"]), "scale=%s" % case["scale"]]
@@ -207,6 +235,7 @@ def jsonable(case, res=None):
     c = dict(case)
     for k in ("wA", "wB"):
         c[k] = [str(x) for x in case[k]]
+    c["batch"] = [dict(o, wA=[str(x) for x in o["wA"]], wB=[str(x) for x in o["wB"]]) for o in case.get("batch", [])]
     for k in ("gop", "scale", "factor"):
         c[k] = str(case[k])
     c["scorer"] = {"%s,%s" % k: str(v) for k, v in case["scorer"].items()}
@@ -225,6 +254,8 @@ def from_json(c):
     case.pop("impl", None)
     for k in ("wA", "wB"):
         case[k] = [F(x) for x in c[k]]
+    case["batch"] = [dict(o, wA=[F(x) for x in o["wA"]], wB=[F(x) for x in o["wB"]]) for o in c.get("batch", [])]
+    case.setdefault("batch_pos", 0)
     for k in ("gop", "scale", "factor"):
         case[k] = F(c[k])
     case["scorer"] = {tuple(k.split(",")): F(v) for k, v in c["scorer"].items()}
@@ -232,6 +263,11 @@ def from_json(c):
 
 
 def shrink(case):
+    if case.get("batch"):
+        c = dict(case)
+        c["batch"] = case["batch"][1:]
+        c["batch_pos"] = min(case["batch_pos"], len(c["batch"]))
+        yield c
     for key, pro, w in (("seqA", "proA", "wA"), ("seqB", "proB", "wB")):
         n = len(case[key])
         if n > 1:
